@@ -26,7 +26,7 @@
 
 #define MAXT 16
 #define NOPS 40
-#define NKINDS 22
+#define NKINDS 23
 #define OUTSZ 96
 
 /* shared, read-only after set-up */
@@ -91,11 +91,19 @@ static void do_op(const op_t *o, uint8_t out[OUTSZ], int tid)
     case 17: IDEC(ascon128, &sh_isap128)
     case 18: IDEC(ascon128a, &sh_isap128a)
     case 19: IDEC(ascon80pq, &sh_isap80pq)
+    case 21: { /* fixed-length / customised XOF, KMAC and PRF with per-operation output lengths (initial blocks computed on the fly) */
+        ascon_xof_state_t x; ascon_xofa_state_t xa; size_t ol = 1 + (mlen % 63), ol2 = 1 + (adlen % 47);
+        memset(buf, 0, 330);
+        ascon_xof_init_fixed(&x, ol); ascon_xof_absorb(&x, m, mlen); ascon_xof_squeeze(&x, buf, ol); ascon_xof_free(&x);
+        ascon_xofa_init_fixed(&xa, ol2); ascon_xofa_absorb(&xa, ad, adlen); ascon_xofa_squeeze(&xa, buf + 64, ol2); ascon_xofa_free(&xa);
+        ascon_kmac(sh_key, 16, m, mlen, ad, adlen, buf + 128, ol2); ascon_prf_fixed(buf + 192, ol, m, mlen, sh_key);
+        ascon_kdf(buf + 256, ol, sh_key, 20, ad, adlen);
+        clen = 256 + ol; break; }
     case 20: { /* key extraction from the shared masked keys must keep returning the key */
         ascon_masked_key_128_extract(&sh_mk128, buf); ascon_masked_key_160_extract(&sh_mk160, buf + 16); clen = 36; break; }
     default: { /* the global PRNG and a per-thread PRNG object: output is random, only the call is exercised */
         ascon_random_state_t rs; uint8_t rnd[48];
-        ascon_random(rnd, 48); ascon_random_init(&rs); ascon_random_fetch(&rs, rnd, 32); ascon_random_feed(&rs, m, mlen); ascon_random_free(&rs);
+        ascon_random(rnd, 1 + (mlen % 48)); ascon_random_init(&rs); ascon_random_fetch(&rs, rnd, 32); ascon_random_feed(&rs, m, mlen); ascon_random_free(&rs);
         { char hx[33]; ascon_bytes_to_hex(hx, sizeof(hx), sh_key, 16, tid & 1); memcpy(buf, hx, 32); }
         clen = 32; break; }
     }
